@@ -28,8 +28,33 @@ var c16Files = map[string]string{
 	"/e/g.txt": "TOKEN-e-g",
 }
 var c16Dirs = []string{"/", "/d", "/e", "/h", "/h/index.html", "/st"}
+
 // (f.txt outside has the name, size and modification time of /f.txt inside)
 var c16Outside = map[string]string{"secret.txt": "TOKEN-OUTSIDE-secret", "pubx": "TOKEN-OUTSIDE-pubx", "f.txt": "TOKEN-O"}
+
+// c16ModTime: the modification time given to every file of the fixture, as an HTTP date.
+const c16ModTime = "Thu, 02 Jan 2020 03:04:05 GMT"
+
+// c16DirectETag: the ETag the file holding this content carries when it is requested by its own path on w.
+func c16DirectETag(w *c16World, o c16Opts, body string) string {
+	for key, content := range c16Files {
+		if content != body {
+			continue
+		}
+		pre := strings.Trim(o.Prefix, "/")
+		if pre != "" {
+			pre = "/" + pre
+		}
+		marker := w.marker
+		spy, pan := c16Serve(w, "GET", pre+key, "")
+		w.marker = marker
+		if pan != nil || spy.code != 200 {
+			return ""
+		}
+		return spy.hdr.Get("ETag")
+	}
+	return ""
+}
 
 func c16Fixture() (root string, cleanup func()) {
 	root = filepath.Join(core.VerifDir, ".work", "c16", fmt.Sprint(os.Getpid()))
@@ -272,6 +297,16 @@ func c16Judge(w *c16World, o c16Opts, method, p, inm string) (bad, kind, class s
 		}
 		if o.ETag && spy.hdr.Get("ETag") == "" {
 			return "SetETag on but no ETag header", "etag-missing", ""
+		}
+		// what is sent is the file - also when it is reached through its directory: its validators are the
+		// file's own (every file of the fixture was last modified at c16ModTime; directories were not)
+		if lm := spy.hdr.Get("Last-Modified"); lm != c16ModTime {
+			return fmt.Sprintf("Last-Modified %q, the file served was last modified %q", lm, c16ModTime), "validators-of-another-entry", ""
+		}
+		if o.ETag && !o.IOFS && !o.DirFS {
+			if direct := c16DirectETag(w, o, want.Body); direct != "" && spy.hdr.Get("ETag") != direct {
+				return fmt.Sprintf("ETag %q, the same file requested by its own path carries %q", spy.hdr.Get("ETag"), direct), "validators-of-another-entry", ""
+			}
 		}
 		if o.Expires != (spy.hdr.Get("Expires") == "EXPIRES-VALUE") || o.Cache != (spy.hdr.Get("Cache-Control") == "CACHE-VALUE") {
 			return fmt.Sprintf("Expires=%q Cache-Control=%q do not reflect the options %+v", spy.hdr.Get("Expires"), spy.hdr.Get("Cache-Control"), o), "cache-headers", ""
